@@ -187,12 +187,12 @@ FUNCS = [S_ + 'Signal.' + m for m in ('reset_values', 'clear_cache', 'add_consta
                                          'generate_displacement_and_velocity_series')]
 
 
-def run_op(V, cls, opname, build, readers, is_reader=False):
+def run_op(V, cls, opname, build, readers, is_reader=False, check='cache', dtype='float'):
     st = {}
 
     def setup():
         CS.install_cache_summaries(V)
-        o = CS.make_state(V, cls)
+        o = CS.make_state(V, cls, cold=(check == 'own'), dtype=dtype)
         run, params = build(V, o)
         st.update(o=o, run=run, params=params, pre=CS.shallow(o))
         return ((o,), {})
@@ -210,8 +210,12 @@ def run_op(V, cls, opname, build, readers, is_reader=False):
                                   'store-shape-match', 'broadcast-shape', 'interp-xp-fp-same-length', 'fft-length-positive',
                                   'range-index-in-bounds', 'pad-width-non-negative', 'extreme-of-nonempty-axis', 'fancy-index-in-bounds',
                                   'insert-position-in-range', 'reshape-size'))
-        CS.check_fresh_equivalence(V, out, o, readers)
+        if check == 'cache':
+            CS.check_fresh_equivalence(V, out, o, readers)
         CS.check_ownership(V, out, o, st['params'])
+        if check == 'own':
+            CS.check_time_axis(V, out, o)
+            continue
         if is_reader:
             pre = st['pre']
             want = CS.observe(V, CS.cold_clone(V, pre), opname)
